@@ -90,6 +90,13 @@ class Mon:
         r.hvbar = rng.choice([0, 0x300, 0x11400])
         if ctx.cfg['have_virt_ext'] and ns and ctx.prot == 'off':
             r.hcr.tge = rng.randrange(2)
+        if ctx.cfg['have_virt_ext'] and ns and rng.random() < 0.5:
+            # the hypervisor's trap controls: whatever they trap goes to Hyp mode at the Hyp Trap vector, nowhere else
+            # (HSTR.T<n> / TJDBX / TTEE, HCR.TWI / TWE / TSC / TIDCP / TID<n> / TAC / TSW / TPC / TPU / TTLB / TVM, HCPTR)
+            r.hstr.value = rng.getrandbits(32) & 0x0003BFEF if rng.random() < 0.7 else (1 << 17)
+            r.hcr.value = (r.hcr.value & (1 << 27)) | (rng.getrandbits(32) & 0x07FFE000 & ~(1 << 27))
+            r.hcptr.value = rng.getrandbits(32) & 0x80103FFF | 0x000033FF & rng.getrandbits(32)
+            desc['hyp_traps'] = dict(hstr='%#x' % r.hstr.value, hcr='%#x' % r.hcr.value, hcptr='%#x' % r.hcptr.value)
         if ctx.cfg['have_security_ext'] and rng.random() < 0.5:
             # the Secure configuration bits that gate what User code can reach (SCD disables SMC, HCE enables HVC, the
             # routing bits): none of them may open a way out of User mode other than an architectural exception
